@@ -1486,6 +1486,8 @@ fn equivalence_groups(opts: &Opts, rep: &mut Report) {
         ("i".into(), CelValue::Int(19)),
         ("d".into(), CelValue::Float(2.5)),
         ("z".into(), CelValue::Int(0)),
+        ("h".into(), CelValue::Float(0.1)),
+        ("m1".into(), CelValue::Int(-1)),
     ];
     let mut groups: Vec<Vec<String>> = vec![
         vec!["-9223372036854775808".into(), "- 9223372036854775808".into(), "-\n9223372036854775808".into(), "-\t 9223372036854775808".into(), "(-9223372036854775808)".into(), "( - 9223372036854775808 )".into()],
@@ -1500,6 +1502,34 @@ fn equivalence_groups(opts: &Opts, rep: &mut Report) {
         groups.push(vec![format!("!!{}", x), format!("!(!{})", x), format!("! !{}", x)]);
         groups.push(vec![format!("!!!{}", x), format!("!(!(!{}))", x)]);
         groups.push(vec![format!("1 - --{}", x), format!("1 - (-(-{}))", x), format!("1 - -(-{})", x)]);
+    }
+    // left-associative chains whose later operands are constants: the flat spelling groups to the left, also where
+    // regrouping the constants would change the result (doubles, the edge of the int range, integer division)
+    for (a, o1, c1, o2, c2) in [
+        ("h", "+", "0.2", "+", "0.3"),
+        ("h", "+", "1e16", "+", "1.0"),
+        ("h", "+", "1e16", "-", "1e16"),
+        ("d", "*", "1e308", "*", "1e-308"),
+        ("d", "/", "3.0", "*", "3.0"),
+        ("m1", "+", "9223372036854775807", "+", "1"),
+        ("i", "+", "9223372036854775807", "-", "9223372036854775807"),
+        ("lo", "-", "1", "+", "1"),
+        ("i", "-", "1", "-", "2"),
+        ("i", "*", "3", "/", "2"),
+        ("i", "/", "2", "*", "3"),
+        ("i", "%", "7", "%", "3"),
+        ("i", "/", "4", "/", "2"),
+        ("i", "*", "4611686018427387904", "/", "4611686018427387904"),
+        ("u", "-", "3u", "+", "9u"),
+        ("u", "-", "7u", "+", "9u"),
+        ("u", "+", "18446744073709551615u", "-", "18446744073709551615u"),
+        ("s", "+", "'x'", "+", "'y'"),
+        ("l", "+", "[2]", "+", "[3]"),
+    ] {
+        groups.push(vec![format!("{} {} {} {} {}", a, o1, c1, o2, c2), format!("({} {} {}) {} {}", a, o1, c1, o2, c2), format!("{}{}{}{}{}", a, o1, c1, o2, c2)]);
+        groups.push(vec![format!("{} {} {} {} {}", c1, o1, c2, o2, a), format!("({} {} {}) {} {}", c1, o1, c2, o2, a)]);
+        groups.push(vec![format!("{} {} {} {} {} {} {}", a, o1, c1, o2, c2, o1, c1), format!("(({} {} {}) {} {}) {} {}", a, o1, c1, o2, c2, o1, c1)]);
+        groups.push(vec![format!("[{} {} {} {} {}][0]", a, o1, c1, o2, c2), format!("[({} {} {}) {} {}][0]", a, o1, c1, o2, c2)]);
     }
     let mut pending: Vec<Pending> = Vec::new();
     for g in groups.iter() {
